@@ -280,7 +280,7 @@ def rule_jac_absent(F, ev, R, config, rule="R-JAC-ABSENT"):
         deriv_sites = []
         for cb in body_and_closures(F, b):
             for bi, t in cb.calls():
-                if is_model_call(t, "eval_partial_deriv"):
+                if is_model_call(t, "eval_partial_deriv") or calls_model_transitively(F, t, "eval_partial_deriv"):
                     deriv_sites.append((cb, bi, t))
         if not deriv_sites:
             R.bad(rule, config, b.key, "anchor-missing", "jacobian() evaluates no partial derivative")
@@ -329,6 +329,25 @@ def rule_jac_absent(F, ev, R, config, rule="R-JAC-ABSENT"):
                             found = True
             R.add(rule, config, b.key, "needs-cache@%s" % fl, found,
                   "" if found else "Some(J) is not dominated by a test that the cache is present", s.get("span"))
+
+
+def calls_model_transitively(F, t, name, depth=0):
+    """the call `t` targets a local fallible helper that (transitively) performs Model::<name>;
+    the helper's own handling of the model call's result is a separate R-ERR-DISCIPLINE instance"""
+    if t["k"] != "call" or "fn" not in t or depth > 4:
+        return False
+    k = t["fn"].get("resolved_key") or t["fn"].get("key")
+    cb = F.bodies.get(k)
+    if cb is None:
+        return False
+    out = cb.j.get("output", "")
+    if not (out.startswith("std::result::Result<") or out.startswith("std::option::Option<")):
+        return False
+    for x in body_and_closures(F, cb):
+        for bi, t2 in x.calls():
+            if is_model_call(t2, name) or calls_model_transitively(F, t2, name, depth + 1):
+                return True
+    return False
 
 
 def some_only_via_ok(F, ev, b, res_local, res_block, some_blocks):
